@@ -355,6 +355,14 @@ def files_through_cli(ctx, srcs):
             perm = list(base); rng.shuffle(perm)
             k = rng.choice([2, 2, 3]); cuts = sorted(rng.sample(range(1, len(perm)), min(k - 1, len(perm) - 1)))
             parts = [perm[i:j] for i, j in zip([0] + cuts, cuts + [len(perm)])]
+            # a purchase recorded as two identical fills, one in each of two files (statements of two accounts, two export chunks):
+            # identical lines are separate transactions wherever they stand
+            buys = [(pi, l) for pi, part in enumerate(parts) for l in part if l.kind == "BUY"]
+            if buys and rng.random() < 0.5:
+                pi, l = rng.choice(buys); other = rng.choice([q for q in range(len(parts)) if q != pi])
+                parts[other].insert(rng.randint(0, len(parts[other])), l)
+                perm = [x for part in parts for x in part]
+                ctx.count("cli_file_split_identical_fill_across_files", 1)
             if rng.random() < 0.2: parts.insert(rng.randint(0, len(parts)), [])        # an empty file
             wd = os.path.join(root, "f%d" % n); os.makedirs(wd); n += 1
             names = []; ends = []
